@@ -237,6 +237,56 @@ def readFk (s : Str) : Option FkDesc :=
     | none => none
   | _ => none
 
+/-- what a reader of the DDL learns from one `CREATE INDEX` statement -/
+structure IndexDesc where
+  unique : Bool
+  name : Option Str
+  /-- the table, as qualified in the text -/
+  table : Str
+  /-- the word after `USING`, if any -/
+  method : Option Str
+  cols : List Str
+  deriving DecidableEq, Repr
+
+/-- `"name" ` at the front (the optional index name) -/
+def readIndexName (s : Str) : Option Str × Str :=
+  match readQuoted s with
+  | some (n, ' ' :: r) => (some n, r)
+  | _ => (none, s)
+
+/-- `USING WORD ` at the front (the optional index type) -/
+def readUsing (s : Str) : Option Str × Str :=
+  match stripKw (lit "USING ") s with
+  | (true, r) =>
+    match r.dropWhile (· != ' ') with
+    | ' ' :: r2 => (some (r.takeWhile (· != ' ')), r2)
+    | _ => (none, s)
+  | _ => (none, s)
+
+/-- the reader of one `CREATE [UNIQUE ]INDEX ["name" ]ON "t" [USING TYPE ]("a", …);` over column subjects -/
+def readIndex (s : Str) : Option IndexDesc :=
+  match stripKw (lit "CREATE ") s with
+  | (true, s1) =>
+    let u := stripKw (lit "UNIQUE ") s1
+    match stripKw (lit "INDEX ") u.2 with
+    | (true, s2) =>
+      let nm := readIndexName s2
+      match stripKw (lit "ON ") nm.2 with
+      | (true, s3) =>
+        match readQual s3 with
+        | some (tq, ' ' :: s4) =>
+          let us := readUsing s4
+          match us.2 with
+          | '(' :: s5 =>
+            match readNamesR s5.length s5 with
+            | some (cs, [';']) => some ⟨u.1, nm.1, tq, us.1, cs⟩
+            | _ => none
+          | _ => none
+        | _ => none
+      | _ => none
+    | _ => none
+  | _ => none
+
 end C04
 end PyDBML
 
@@ -248,6 +298,7 @@ inductive Stmt where
   | enum (d : EnumDesc)
   | table (d : TabDesc)
   | fk (d : C04.FkDesc)
+  | index (d : C04.IndexDesc)
   deriving DecidableEq, Repr
 
 /-- the reader of one block of lines (what stands between two empty lines of the script) -/
@@ -258,6 +309,7 @@ def readBlock (lines : List Str) : Option Stmt :=
     if (lit "CREATE TYPE ").isPrefixOf h then (readEnumLines lines).map Stmt.enum
     else if (lit "CREATE TABLE ").isPrefixOf h then (readTableLines lines).map Stmt.table
     else if (lit "ALTER TABLE ").isPrefixOf h ∧ rest = [] then (C04.readFk h).map Stmt.fk
+    else if (lit "CREATE ").isPrefixOf h ∧ rest = [] then (C04.readIndex h).map Stmt.index
     else none
 
 /-- the reader of a whole script: enum, table and foreign-key statements separated by empty lines -/
